@@ -67,12 +67,15 @@ type Ctx struct {
 	Prop string
 	Tier string
 	Obls []*Obligation
+	// RulePrefix is prepended to rule names while the rules of another property are
+	// evaluated as part of this one (e.g. "B." for the packet-buffer rules inside C11).
+	RulePrefix string
 }
 
 // Obl registers an obligation. minSites is the floor of matched sites below which the
 // obligation is vacuous and therefore fails.
 func (c *Ctx) Obl(rule, construct, desc string, minSites int) *Obligation {
-	o := &Obligation{Rule: c.Prop + "." + rule, Construct: construct, Desc: desc, Config: c.P.Cfg.String(), MinSites: minSites, ctx: c}
+	o := &Obligation{Rule: c.Prop + "." + c.RulePrefix + rule, Construct: construct, Desc: desc, Config: c.P.Cfg.String(), MinSites: minSites, ctx: c}
 	c.Obls = append(c.Obls, o)
 	return o
 }
